@@ -104,6 +104,7 @@ type Encoder struct {
 	cacheBits       int
 
 	// Flags.
+	hasAlpha         bool // true if any input pixel is not fully opaque
 	useSubtractGreen bool
 	usePredict       bool
 	useCrossColor    bool
@@ -173,6 +174,7 @@ func Encode(argb []uint32, width, height int, config *EncoderConfig) ([]byte, er
 		enc.argb = make([]uint32, pixelCount)
 	}
 	copy(enc.argb, argb)
+	enc.hasAlpha = argbHasAlpha(argb)
 
 	// Analyze image.
 	enc.analyze()
@@ -220,6 +222,7 @@ func EncodeToWriter(argb []uint32, width, height int, config *EncoderConfig,
 		enc.argb = make([]uint32, pixelCount)
 	}
 	copy(enc.argb, argb)
+	enc.hasAlpha = argbHasAlpha(argb)
 
 	enc.analyze()
 	if config.NearLosslessQuality < 100 {
@@ -249,6 +252,16 @@ func EncodeToWriter(argb []uint32, width, height int, config *EncoderConfig,
 		_, err = w.Write([]byte{0})
 	}
 	return err
+}
+
+// argbHasAlpha reports whether any pixel has an alpha value other than 0xff.
+func argbHasAlpha(argb []uint32) bool {
+	for _, p := range argb {
+		if p>>24 != 0xff {
+			return true
+		}
+	}
+	return false
 }
 
 // analyze determines which transforms to use and sets encoding parameters.
@@ -501,8 +514,12 @@ func (enc *Encoder) encodeStream() ([]byte, error) {
 	bw.WriteBits(uint32(width-1), VP8LImageSizeBits)
 	// Height - 1 (14 bits).
 	bw.WriteBits(uint32(height-1), VP8LImageSizeBits)
-	// Alpha is used (1 bit).
-	bw.WriteBits(1, 1)
+	// Alpha is used (1 bit): a hint that some pixel is not fully opaque.
+	if enc.hasAlpha {
+		bw.WriteBits(1, 1)
+	} else {
+		bw.WriteBits(0, 1)
+	}
 	// Version (3 bits).
 	bw.WriteBits(VP8LVersion, VP8LVersionBits)
 
